@@ -299,12 +299,16 @@ def rule_r4(p, res):
         if (dotted(c.func) or "") in ("csgraph.breadth_first_order", "csgraph.depth_first_order"):
             r.check(kwarg(c, "directed") is not None and norm(kwarg(c, "directed")) == "self._directed" and len(c.args) >= 2 and norm(c.args[1]) == fpth.params[1], fpth, c,
                     "graph search must start at `start` and honour directedness")
-    ms = p.own_method("UndirectedGraph", "minimum_spanning_tree")
-    r.instance(ms)
-    s = norm(ms.node)
-    r.check("csgraph.minimum_spanning_tree(self.adjacency_matrix)" in s and "csgraph.depth_first_tree(mst_adjacency, %s, directed=False)" % ms.params[1] in s, ms, ms.node,
-            "the spanning tree must be oriented away from the requested root")
-    r.check("Tree(mst_adjacency, %s" % ms.params[1] in s, ms, ms.node, "the spanning tree must be rooted at the requested vertex")
+    for cname, ctor in (("UndirectedGraph", "Tree(mst_adjacency, %s"), ("PointUndirectedGraph", "PointTree(self.points, mst_adjacency, %s")):
+        ms = p.own_method(cname, "minimum_spanning_tree")
+        r.instance(ms)
+        s = norm(ms.node)
+        r.check("mst_adjacency = csgraph.minimum_spanning_tree(self.adjacency_matrix)" in s and "mst_adjacency = csgraph.depth_first_tree(mst_adjacency, %s, directed=False)" % ms.params[1] in s, ms, ms.node,
+                "%s.minimum_spanning_tree: the tree that is rooted at the requested vertex must be the minimum spanning tree just computed (not the graph itself)" % cname, {"class": cname})
+        r.check(ctor % ms.params[1] in s, ms, ms.node, "the spanning tree must be rooted at the requested vertex")
+    for c in p.descendants(p.cls("UndirectedGraph"), include_self=False):
+        if "minimum_spanning_tree" in c.methods and c.name not in ("PointUndirectedGraph",):
+            r.note("%s overrides minimum_spanning_tree" % c.name)
 
 
 def rule_r5(p, res):
@@ -394,6 +398,8 @@ WITNESSES = [
             rule="C14.R3", construct="PointTree.from_mask", note="seeded change C14-A"),
     Witness("C14.W12", "menpo/shape/graph.py", "_has_cycles", "                dfs(y, entered, exited, tree_edges, back_edges)\n            exited.add(node)", "                dfs(y, entered, exited, tree_edges, back_edges)\n                exited.add(node)",
             rule="C14.R6", construct="_has_cycles", note="seeded change C14-B"),
+    Witness("C14.W13", "menpo/shape/graph.py", "PointUndirectedGraph.minimum_spanning_tree", "csgraph.depth_first_tree(mst_adjacency, root_vertex, directed=False)", "csgraph.depth_first_tree(self.adjacency_matrix, root_vertex, directed=False)",
+            rule="C14.R4", construct="PointUndirectedGraph.minimum_spanning_tree", note="seeded change R2-C14-B"),
     Witness("C14.T1", "menpo/shape/graph.py", "Graph.get_adjacency_list", "from_v = rows[i]\n        to_v = cols[i]\n        adjacency_list[from_v].append(to_v)",
             "adjacency_list[rows[i]].append(cols[i])", kind="T"),
 ]
